@@ -781,6 +781,16 @@ class Block(object):
             raise PyrtlInternalError('error, op only allowed 3 arguments')
         if net.op in '&|^n+-*<>=' and net.args[0].bitwidth != net.args[1].bitwidth:
             raise PyrtlInternalError('error, args have mismatched bitwidths')
+        if net.op in 'm@':
+            # op_param is dereferenced below, so its shape has to be checked first
+            if not isinstance(net.op_param, tuple):
+                raise PyrtlInternalError('error, mem op requires tuple op_param')
+            if len(net.op_param) != 2:
+                raise PyrtlInternalError('error, mem op requires 2 op_params in tuple')
+            if not isinstance(net.op_param[0], int):
+                raise PyrtlInternalError('error, mem op requires first operand as int')
+            if not isinstance(net.op_param[1], MemBlock):
+                raise PyrtlInternalError('error, mem op requires second operand of a memory type')
         if net.op in 'm@' and net.args[0].bitwidth != net.op_param[1].addrwidth:
             raise PyrtlInternalError('error, mem addrwidth mismatch')
         if net.op == '@' and net.args[1].bitwidth != net.op_param[1].bitwidth:
